@@ -177,4 +177,45 @@ CONTRACTS = {
  M + '_get_detailed_student_info': dict(pure_text=True),
  M + '_get_detailed_project_info': dict(pure_text=True),
  M + '_get_detailed_lecturer_info': dict(pure_text=True),
+
+ # ---- reading the matching back from the solution values (C01)
+ M + '_get_pair_assignments': dict(
+    locals={'pair_assignments': ('list', 'ref')}, theory=['listsets'],
+    requires=['sizes_ok(self)', 'pairs_ok(self)', 'has_vars(self.pairs)'],
+    defs={'chosen': (['r', 'rows', 'upto'], 'exists(i, 0, rows, exists(c, 0, len(self.pairs[i]), self.pairs[i][c] == r and solved(self.pairs[i][c].lp_var) != 0))'
+                                             ' or exists(c, 0, upto, self.pairs[rows][c] == r and solved(self.pairs[rows][c].lp_var) != 0)')},
+    loops={0: dict(invariant=['forall(r, (ref(r) in elems(pair_assignments)) == chosen(ref(r), _k, 0))']),
+           1: dict(invariant=['forall(r, (ref(r) in elems(pair_assignments)) == chosen(ref(r), _k0, _k))'])},
+    returns=('list', 'ref'),
+    ensures=[('exactly-the-pairs-whose-variable-is-set', 'forall(r, (ref(r) in elems(result)) == chosen(ref(r), len(self.pairs), 0))')]),
+
+ M + '_get_pair_assignments_with_none': dict(
+    locals={'pair_assignments': ('list', 'ref')},
+    requires=['sizes_ok(self)', 'pairs_ok(self)', 'has_vars(self.pairs)'],
+    loops={0: dict(invariant=['len(pair_assignments) >= _k', 'forall(t, 0, len(pair_assignments), pair_assignments[t] == None or is_model_pair(self, pair_assignments[t]))']),
+           1: dict(invariant=['len(pair_assignments) >= _k0 + ite(added, 1, 0)', 'forall(t, 0, len(pair_assignments), pair_assignments[t] == None or is_model_pair(self, pair_assignments[t]))'])},
+    returns=('list', 'ref'),
+    ensures=[('entries-are-pairs-of-the-instance-or-None', 'forall(t, 0, len(result), result[t] == None or is_model_pair(self, result[t]))'),
+             ('at-least-one-entry-per-student', 'len(result) >= self.num_students')]),
+
+ # ---- C14 / C11: what the result text shows.  status_code(self.pulp_status) is the code of the stored status (1 = Optimal, 0 = Not Solved).
+ M + 'get_results': dict(
+    params={'short_or_long': ('enumsym', 'Output_type'), 'stable_correctness': 'bool'},
+    requires=['sizes_ok(self)', 'pairs_ok(self)', 'has_vars(self.pairs)', 'self.num_lecturers >= 1',
+              'short_or_long == Output_type.SHORT or short_or_long == Output_type.LONG',
+              'not stable_correctness'],          # the stability_correct line (check_stability on the solution) is covered by C06 + bounded runs
+    defs={'code': ([], 'status_code(self.pulp_status)'),
+          'elapsed': ([], 'self.time_after_solve - self.time_start'),
+          'timeout': ([], 'self.time_limit != None and (code() == 0 or elapsed() > self.time_limit)'),
+          'shows_matching': ([], "has_text(result, 'matching: ') or has_text(result, 'size: ') or has_text(result, 'cost: ') or has_text(result, 'profile: ') or has_text(result, 'Student_assignments')")},
+    returns=('str', 'results'), late_locals={'pair_assignments': ('list', 'ref')},
+    ensures=[('no-matching-unless-the-stored-status-is-Optimal', 'implies(code() != 1, not shows_matching())'),
+             ('no-matching-on-timeout', 'implies(timeout(), not shows_matching())'),
+             ('timeout-line-exactly-when-a-limit-was-exceeded-or-left-unsolved', "has_text(result, 'Timeout: ') == timeout()"),
+             ('otherwise-the-stored-status-is-shown', "implies(not timeout(), after(result, 'pulp_status: ') == self.pulp_status)"),
+             ('matching-and-statistics-when-Optimal', "implies(code() == 1 and not timeout(), has_text(result, 'matching: ') and has_text(result, 'size: '))"),
+             # C11: the printed figures are the helper results for the list obtained from _get_pair_assignments()
+             ('size-field', "implies(code() == 1 and not timeout(), printed_int(result, 'size: ') == self.num_students - Count(i, self.num_students, not exists(q, 0, len(pair_assignments), pair_assignments[q].student_index == i)))"),
+             ('cost-field', "implies(code() == 1 and not timeout(), printed(result, 'cost: ')[0] == Sum(q, len(pair_assignments), pair_assignments[q].rank_student) and printed(result, 'cost: ')[1] == Sum(q, len(pair_assignments), rl(pair_assignments[q])))"),
+             ('degree-field', "implies(code() == 1 and not timeout(), forall(q, 0, len(pair_assignments), pair_assignments[q].rank_student <= printed_int(result, 'degree: ')))")]),
 }
